@@ -99,7 +99,8 @@ func (o *outPipe) Close() error                { return nil }
 
 // ---- editor model --------------------------------------------------------------
 
-var pieces = []string{"a", "b", " ", "x := 1", "é", "世界", "😀", "𝄞", "\n", "\r\n", "\n\n", "func f() {", "}", "\t", "// 注释", "\"s\"", "0"}
+var pieces = []string{"a", "b", " ", "x := 1", "é", "世界", "😀", "𝄞", "\n", "\r\n", "\n\n", "func f() {", "}", "\t", "// 注释", "\"s\"", "0",
+	"\uFFFD", "\uFEFF", "\u2028", "\u00A0", "e\u0301", "\u0000", "\U0010FFFF", "\u07FF\u0800", "\uFFFF"}
 
 func genText(t *tape.Tape, max int) string {
 	n := t.Draw(max + 1)
